@@ -1,4 +1,5 @@
 import Cd.Basic
+import Cd.Couples
 namespace CdDrv
 open Cd
 def parseInts (s : String) : List Int := if s = "-" then [] else (s.splitOn ",").filterMap (·.toInt?)
@@ -11,6 +12,19 @@ partial def loop (h : IO.FS.Stream) : IO Unit := do
   | ["csr", ncols, rows] =>
     let m := (rows.splitOn ";").map parseInts
     IO.println s!"{fromCSR m.length ncols.toNat! (toCSR m)}"
+  | ["ccsr", rows] =>
+    -- rows: `c=v,c=v;…`, an empty row is `-`, a matrix without rows is `.`
+    let parseRow := fun (r : String) => if r = "-" then ([] : CdC.Row) else
+      (r.splitOn ",").filterMap fun e => match e.splitOn "=" with
+        | [c, v] => match c.toNat?, v.toInt? with
+          | some c, some v => some (c, v)
+          | _, _ => none
+        | _ => none
+    let m := if rows = "." then [] else (rows.splitOn ";").map parseRow
+    let back := CdC.decode (CdC.encode m)
+    let fmtRow := fun (r : CdC.Row) => if r.isEmpty then "-" else ",".intercalate (r.map fun (c, v) => s!"{c}={v}")
+    IO.println (if back.isEmpty then "." else ";".intercalate (back.map fmtRow))
+  | ["nop"] => IO.println "ok"
   | _ => IO.println "bad-op"
   loop h
 def main : IO Unit := do loop (← IO.getStdin)
